@@ -162,10 +162,11 @@ const FAULT_KINDS: &[&str] = &[
     "schema-plugin-misuse", "gen-output-without-file-name", "schema-eof-unclosed", "op-eof-unclosed",
     // faults deep inside nested blocks, next to blank lines, behind tabs or wide white space (what message_for_line's
     // common-indentation logic has to cope with)
+    "gen-scalar-type-missing", "op-invalid-unspread-fragment",
     "op-deep-unknown-field", "op-deep-syntax", "op-deep-tabs", "op-wide-space-syntax", "schema-deep-unknown-type", "schema-deep-wide-doc",
 ];
-/// faults whose handling by the current code violates the property (known findings; kept in dedicated projects)
-const KNOWN_FAULT_KINDS: &[&str] = &["gen-scalar-type-missing", "op-invalid-unspread-fragment"];
+/// faults whose handling by the current code violates the property (known findings; kept in dedicated projects) — none at present
+const KNOWN_FAULT_KINDS: &[&str] = &[];
 
 struct Built { proj: Project, docs: Vec<g::Doc>, schema: g::Schema }
 
@@ -408,10 +409,10 @@ fn inject(rng: &mut Rng, root: &Path, b: &mut Built, kind: &str, prefix: &mut Ve
             f.stage = 6; f.files = vec![dfile];
         }
         "op-invalid-unspread-fragment" => {
-            // a fragment definition nothing spreads, selecting a field that does not exist: `check` never looks at it
+            // a fragment definition nothing spreads, selecting a field that does not exist (checked on its own since c67e45e)
             let q = b.schema.query.clone();
             suffix[dj].push_str(&format!("fragment Unused{serial} on {q} {{\n  zzNowhere{serial}\n}}\n"));
-            f.stage = 8; f.files = vec![dfile]; f.known = vec!["unspread-fragment-not-checked-then-generate-panics".into()];
+            f.stage = 8; f.files = vec![dfile];
         }
         "gen-missing-schema-output" => { b.proj.gen.schema_output = None; b.proj.gen.module_specifier = None; f.stage = 9; }
         "gen-output-without-file-name" => { b.proj.gen.schema_output = Some("generated/..".into()); b.proj.gen.emit_runtime = false; f.stage = 9; }
@@ -421,9 +422,10 @@ fn inject(rng: &mut Rng, root: &Path, b: &mut Built, kind: &str, prefix: &mut Ve
             // make sure there is a custom scalar, and configure no TypeScript type for any
             if b.proj.gen.scalars.is_empty() { b.proj.schema_files[sj].1.push_str(&format!("scalar Stamp{serial}\n")); }
             b.proj.gen.scalars.clear(); b.proj.gen.server_output = None;
-            // the printer's error carries the position of the scalar definition; one of the files declaring a scalar has to be named
+            // the printer's error carries the position of the scalar definition (the first scalar without a type): one of the
+            // files declaring a scalar has to be named
             f.files = b.proj.schema_files.iter().filter(|(_, t)| t.lines().any(|l| l.starts_with("scalar "))).map(|(n, _)| abs(root, n)).collect();
-            f.stage = 9; f.known = vec!["generate-stage-error-not-located".into()];
+            f.stage = 9;
         }
         "cfg-unknown-plugin" => { b.proj.plugins.push(format!("no-such-plugin-{serial}")); f.stage = 0; }
         "cfg-invalid" => { b.proj.yaml_override = Some("schema: [\n".into()); f.stage = 0; }
@@ -465,6 +467,9 @@ struct Host { files: Vec<&'static str> }
 impl PluginHost for Host {
     fn load_virtual_file(&mut self, content: String) -> &'static str { let s: &'static str = Box::leak(content.into_boxed_str()); self.files.push(s); s }
 }
+
+/// cli/src/generate.rs `positioned`: a printer error keeps the position it is about
+fn positioned<E: std::error::Error + Send + Sync + 'static>(position: Pos, error: E) -> PositionedError { PositionedError::new(error.into(), Some(position), vec![]) }
 
 fn leak(s: &str) -> &'static str { Box::leak(s.to_string().into_boxed_str()) }
 
@@ -548,7 +553,7 @@ fn oracles(yaml: &str, schema: &[(String, String)], ops: &[(String, String)], pl
     let Some(config) = config else { return o };
     o.print_schema = Some(step_of(catch(AssertUnwindSafe(|| {
         let mut w = SourceWriter::new();
-        SchemaTypePrinter::new(SchemaTypePrinterOptions::from_config(&config), &mut w).print_document(&resolved).map_err(|e| pe(e.into()))
+        SchemaTypePrinter::new(SchemaTypePrinterOptions::from_config(&config), &mut w).print_document(&resolved).map_err(|e| pe(positioned(e.position(), e)))
     }))));
     o.print_server = Some(step_of(catch(AssertUnwindSafe(|| {
         let mut buffer = String::new();
@@ -561,7 +566,7 @@ fn oracles(yaml: &str, schema: &[(String, String)], ops: &[(String, String)], pl
         let mut w = SourceWriter::new();
         let mut options = ResolverTypePrinterOptions::from_config(&config);
         options.schema_source = "./schema".into();
-        ResolverTypePrinter::new(options, &mut w).print_document(&resolved, &plugins).map_err(|e| pe(e.into()))
+        ResolverTypePrinter::new(options, &mut w).print_document(&resolved, &plugins).map_err(|e| pe(positioned(e.position(), e)))
     }))));
     for (i, d) in full.iter().enumerate() {
         o.op_print[i] = step_of(catch(AssertUnwindSafe(|| {
@@ -675,7 +680,7 @@ fn main() {
             } else if j < plan_kinds.len() + PAIRS.len() {
                 let (a, c) = PAIRS[j - plan_kinds.len()];
                 kinds.push((a, Some(0))); kinds.push((c, Some(1))); pair = true;
-            } else if rng.chance(1, 12) { kinds.push((*rng.pick(KNOWN_FAULT_KINDS), None)); }
+            } else if !KNOWN_FAULT_KINDS.is_empty() && rng.chance(1, 12) { kinds.push((*rng.pick(KNOWN_FAULT_KINDS), None)); }
             else if rng.chance(1, 3) { let (a, c) = *rng.pick(PAIRS); kinds.push((a, Some(0))); kinds.push((c, Some(1))); pair = true; }
             else { let k = rng.range(1, if thorough { 4 } else { 2 }); for _ in 0..k { kinds.push((*rng.pick(FAULT_KINDS), None)); } }
         }
